@@ -293,14 +293,29 @@ def run_case(case, drv):
     mem = drv.call("cfg.member", G=plain, words=words)
     base = {"vars": [], "ters": ters, "start": "S",
             "prods": [[h[0], [[i[0], i[1]] for i in body]] for h, body in gs["prods"]]}
-    for w, m in zip(words, mem):
+    # step-faithful tie of the Earley recogniser (Pfl/Model/Earley.lean; faithful without epsilon productions)
+    earley = None
+    if not has_eps:
+        try:
+            earley = drv.call("fs.earley", _timeout=20.0, prods=gs["prods"], start="S", words=words)
+        except Exception:  # pylint: disable=broad-except
+            res.tag("earley_model_skipped")
+    for idx_w, (w, m) in enumerate(zip(words, mem)):
         got = outcome(lambda w=w: fg.contains(w), limit=3.0)
         res.evals += 1
+        agrees = False
+        if earley is not None and earley[idx_w] is not None and got[0] == "ok":
+            res.corr += 1
+            agrees = got[1] == earley[idx_w]
+            if not agrees:
+                res.corr_break("FCFG.contains", "verdict differs from the Earley model",
+                               detail={"word": w, "impl": got[1], "model": earley[idx_w], "grammar": gs})
+            res.tag("earley_tie")
         if m is None:
             continue
         if got != ("ok", m):
             res.violation("FCFG.contains", "differs from membership in the instantiated context-free grammar",
-                          detail={"word": w, "impl": got, "spec": m, "grammar": gs}, scope=scope)
+                          detail={"word": w, "impl": got, "spec": m, "grammar": gs}, scope=scope, model_agrees=agrees)
             break
         if m:
             t = outcome(lambda w=w: tree_json(fg.get_parse_tree(w)), limit=3.0)
